@@ -255,7 +255,7 @@ def check_body_text(ctx, drv, md, model, impl, strategy, width, base):
         ctx.violations.append({"what": "the report has no body between `# Recommended programs` and `# Summary` (or an unclosed listing)",
                                "replay": replay, "signature": None})
         return
-    read = drv.call("c17.body_parse", lines=real)
+    read = drv.call("c17.body_parse", text="\n".join(real))   # the text itself: split by the spec (C17_text_roundtrip_string)
     replay["spec(parseBody of impl lines)"] = read
     replay["model(=spec) structured"] = model["body"]
     if read is None and impl["body"] == model["body"]:
@@ -378,7 +378,7 @@ def run(ctx):
     ]
     ctx.cov["proved"] = ["C17_membership", "C17_bucket", "C17_bucket_contains", "C17_order", "C17_rows", "C17_total", "C17_summary",
                          "C17_summary_fresh", "C17_stdout", "C17_order_across", "C17_order_across_assess", "C17_cell_roundtrip", "C17_cell_imported",
-                         "C17_cell_not_imported", "C17_cell_wrap_keeps_text", "C17_text_roundtrip", "C17_text_roundtrip_string", "C17_text_injective", "C17_text_membership",
+                         "C17_cell_not_imported", "C17_cell_wrap_keeps_text", "C17_text_roundtrip", "C17_text_roundtrip_string", "C17_text_okBody_of_db", "C17_text_injective", "C17_text_membership",
                          "C17_text_rows", "C17_text_bucket_count", "C17_text_reader_counts"]
     ctx.cov["exercised_only"] = ["rendering: slugs, table of contents, line-number gutter and source listing",
                                  "float repr of the costs (showFloat / rowCostText against the real text, line by line)",
